@@ -89,6 +89,8 @@ template <class T> void run (const char* tn, Tally& t)
         m.multDirMatrix (v, d);  { Vec3<T> x = v; m.multDirMatrix (x, x); if (!eq<Vec3<T>, T, 3> (x, d)) R ().fail ("Matrix44::multDirMatrix.dst-aliases-src", std::string ("T=") + tn + " m=[" + show<Matrix44<T>, T, 16> (m) + "]", show<Vec3<T>, T, 3> (d), show<Vec3<T>, T, 3> (x)); }
         n.multVecMatrix (v2, w2); { Vec2<T> x = v2; n.multVecMatrix (x, x); if (!eq<Vec2<T>, T, 2> (x, w2)) R ().fail ("Matrix33::multVecMatrix.dst-aliases-src", std::string ("T=") + tn + " m=[" + show<Matrix33<T>, T, 9> (n) + "]", show<Vec2<T>, T, 2> (w2), show<Vec2<T>, T, 2> (x)); }
         n.multDirMatrix (v2, d2); { Vec2<T> x = v2; n.multDirMatrix (x, x); if (!eq<Vec2<T>, T, 2> (x, d2)) R ().fail ("Matrix33::multDirMatrix.dst-aliases-src", std::string ("T=") + tn + " m=[" + show<Matrix33<T>, T, 9> (n) + "]", show<Vec2<T>, T, 2> (d2), show<Vec2<T>, T, 2> (x)); }
+        // cross product with itself through the compound spelling: v %= v  ==  v % copy(v)  (== 0)
+        { Vec3<T> x = v, c = v; x %= x; if (!eq<Vec3<T>, T, 3> (x, v % c)) R ().fail ("Vec3::operator%=.rhs-aliases-self", std::string ("T=") + tn, show<Vec3<T>, T, 3> (v % c), show<Vec3<T>, T, 3> (x)); }
         // v *= m equals v * m (free operators)
         { Vec3<T> x = v; x *= m; if (!eq<Vec3<T>, T, 3> (x, v * m)) R ().fail ("Vec3*=Matrix44.vs-operator*", std::string ("T=") + tn, show<Vec3<T>, T, 3> (v * m), show<Vec3<T>, T, 3> (x)); }
         { Vec2<T> x = v2; x *= n; if (!eq<Vec2<T>, T, 2> (x, v2 * n)) R ().fail ("Vec2*=Matrix33.vs-operator*", std::string ("T=") + tn, show<Vec2<T>, T, 2> (v2 * n), show<Vec2<T>, T, 2> (x)); }
